@@ -15,3 +15,13 @@ Proof. exact (oneway_transparent reply_struct_honours_oneway reply_parameters_ho
 Print Assumptions C04_reply_stream_aligned.
 
 Check ex_oneway.
+
+(* client half: oneway() returns after sending, consumes no reply, leaves the connection idle *)
+From VL Require Import Client ClientProofs.
+Open Scope nat_scope.
+Theorem C04_client_oneway_consumes_no_reply : forall s k mo up, cs_idle s = true -> c_fresh (get_call s k) = true ->
+  let s' := fst (cstep s (OSend k true mo up)) in
+  snd (cstep s (OSend k true mo up)) = RUnit /\ cs_idle s' = true /\ cs_inbox s' = cs_inbox s /\
+  cs_finals s' = cs_finals s.
+Proof. exact oneway_consumes_no_reply. Qed.
+Print Assumptions C04_client_oneway_consumes_no_reply.
